@@ -65,3 +65,40 @@ def run_generator(case: dict):
     fn = GENERATORS_MAP[case["gen"]]
     kw = dict(case.get("kw", {}))
     return fn(np.array([case["r"], case["c"]]), **kw)
+
+
+# ----------------------------------------------------------------------------------------------
+# dataset configurations as JSON specs
+# ----------------------------------------------------------------------------------------------
+
+
+def make_cfg(spec: dict):
+    """MazeDatasetConfig from a JSON spec: {name, grid_n, n_mazes, ctor, kwargs, endpoint, seed, filters}"""
+    from maze_dataset import MazeDatasetConfig
+    from maze_dataset.generation.generators import GENERATORS_MAP
+
+    ep = {}
+    for k, v in spec.get("endpoint", {}).items():
+        ep[k] = [tuple(x) for x in v] if isinstance(v, list) else v
+    filters = [
+        dict(name=f["name"], args=tuple(f.get("args", [])), kwargs=dict(f.get("kwargs", {})))
+        for f in spec.get("filters", [])
+    ]
+    kw = dict(
+        name=spec.get("name", "cfg"),
+        grid_n=spec["grid_n"],
+        n_mazes=spec["n_mazes"],
+        maze_ctor=GENERATORS_MAP[spec.get("ctor", "gen_dfs")],
+        maze_ctor_kwargs=json_copy(spec.get("kwargs", {})),
+        endpoint_kwargs=ep,
+        applied_filters=filters,
+    )
+    if "seed" in spec:
+        kw["seed"] = spec["seed"]
+    return MazeDatasetConfig(**kw)
+
+
+def json_copy(x):
+    import json
+
+    return json.loads(json.dumps(x))
